@@ -29,7 +29,8 @@ RULE = (
     "whose bytes were produced by a writer (corpus file = foreign QC program, or iodata's own dump on SimDisk) and "
     "then passed through the crash/storage fault model. Enumerated: every line-boundary crash prefix of every "
     "corpus file up to 6000 lines (189 of 194 loadable files; 2000 seeded cut points for each of the five larger "
-    "ones) in thorough; seeded 1-in-N sample in quick. Seeded: byte/block/raw-write-boundary cuts, torn tails, "
+    "ones) in thorough; seeded 1-in-N sample in quick. Byte-offset crash prefixes: every offset of every file <= 4000 "
+    "bytes (thorough), every 4th offset of every file <= 1200 bytes (quick). Seeded: byte/block/raw-write-boundary cuts, torn tails, "
     "lost/duplicated/swapped blocks and lines, bit flips, character substitutions, numeric-field overwrites incl. "
     "count inflation, misnamed files, 1-3 faults per run. Non-trivial = the faulted bytes differ from the intact "
     "file; distinct = (source file, api, sha of faulted bytes)."
@@ -52,7 +53,8 @@ SLOW = {
     "orca_cuh_cc_pvqz_pure.molden", "orca_zn_cc_pvqz_pure.molden", "nh3_psi4_1.3.2_aug_cc_pvqz_cart.molden",
 }
 # corpus files that are meant to be read with an explicitly given format
-ALT_FORMATS = {"water_extended_trajectory.xyz": "extxyz", "al_fcc.xyz": "extxyz"}
+ALT_FORMATS = {"water_extended_trajectory.xyz": "extxyz", "al_fcc.xyz": "extxyz", "mgo.xyz": "extxyz",
+               "s66_4114_02WaterMeOH.xyz": "extxyz"}
 MISNAMES = ["x.xyz", "x.fchk", "x.molden", "x.wfn", "x.wfx", "x.mkl", "x.pdb", "x.mol2", "x.sdf", "x.gro", "x.cube",
             "x.log", "x.out", "x.cp2k.out", "x.qchemlog", "x.dat", "x.com", "x.crd", "x.mwfn", "x.extxyz",
             "POSCAR_x", "CHGCAR_x", "LOCPOT_x", "x.FCIDUMP", "x.unknownext", "noext"]
@@ -458,10 +460,23 @@ def plan(tier, seed, args):
                 tasks.append({"run": run, "seed": seed, "tier": tier, "mode": "enum", "file": s["file"],
                               "fmt": s["fmt"], "api": api, "cuts": cuts[i:i + per]})
                 run += 1
+    # (a') byte-offset crash prefixes of the small files: every offset (thorough, files <= 4000 bytes) or every
+    # 4th offset with a seeded phase (quick, files <= 1200 bytes)
+    limit, stride = (1200, 4) if tier == "quick" else (4000, 1)
+    for s in srcs_enum:
+        if s["size"] > limit or s["file"] in SLOW:
+            continue
+        phase = rng.randrange(stride)
+        offs_b = list(range(phase, s["size"] + 1, stride))
+        for api in s["apis"]:
+            for i in range(0, len(offs_b), 400):
+                tasks.append({"run": run, "seed": seed, "tier": tier, "mode": "enum", "file": s["file"], "fmt": s["fmt"],
+                              "api": api, "cuts": [], "byte_cuts": offs_b[i:i + 400]})
+                run += 1
     if args.only == "enum":
         return tasks
     # (b) seeded storage-fault runs
-    n = args.runs or (420 if tier == "quick" else 3000)
+    n = args.runs or (320 if tier == "quick" else 3000)
     for i in range(n):
         tasks.append({"run": run, "seed": seed, "tier": tier, "mode": "seeded", "n": 16 if tier == "quick" else 24})
         run += 1
@@ -579,18 +594,21 @@ def run_task(task):
             offs.append(offs[-1] + len(l))
         name, fmt, api = task["file"], task["fmt"], task["api"]
         budget = budget_for(src, name, fmt, api, data0)
-        for cut in task["cuts"]:
-            trace = {"source": src, "faults": [{"kind": "crash_prefix", "n": offs[cut], "at": "line"}], "name": name,
+        cut_list = [(offs[cut], "line", cut) for cut in task["cuts"]] + [(b, "byte", b) for b in task.get("byte_cuts", [])]
+        for nbytes, at, cut in cut_list:
+            trace = {"source": src, "faults": [{"kind": "crash_prefix", "n": nbytes, "at": at}], "name": name,
                      "fmt": fmt, "api": api, "base_name": name, "base_fmt": fmt, "consume": ["exhaust", 0],
                      "knobs": {}}
-            data = data0[: offs[cut]]
+            data = data0[:nbytes]
             rec = run_load(name, fmt, api, data, ("exhaust", 0), None, budget)
             n += 1
             vs = judge(trace, rec)
             viols.extend(vs)
             _record(stats, trace, rec, data, data0, vs)
-            dig.append((cut, type(rec["exc"]).__name__, str(rec["exc"])[:60], len(rec["frames"]), rec["steps"]))
+            dig.append((at, cut, type(rec["exc"]).__name__, str(rec["exc"])[:60], len(rec["frames"]), rec["steps"]))
         stats.add("enumerated_sources", f"{name}:{api}")
+        if task.get("byte_cuts"):
+            stats.add("byte_enumerated_sources", f"{name}:{api}")
         if task["run"] % 29 == 0:
             sample = {"mode": "crash-prefix enumeration", "file": name, "api": api, "cuts_in_task": len(task["cuts"]),
                       "first_cut_lines": task["cuts"][:5], "last_outcome": dig[-1][1] if dig else None}
